@@ -1164,9 +1164,19 @@ impl Exec {
     }
 
     fn read_blob(&mut self, id: u64) -> Result<Vec<u8>, String> {
+        // A blob reader is a lazy handle that outlives the call: the memory serves another read
+        // (which moves its own file cursor) before the reader is drained, and again half-way.
         let mut r = self.mem().blob_reader(id).map_err(|e| e.to_string())?;
+        let other = id.saturating_sub(1);
+        let _ = self.mem().frame_canonical_payload(other);
         let mut v = Vec::new();
-        r.read_to_end(&mut v).map_err(|e| e.to_string())?;
+        let mut head = [0u8; 64];
+        let n = r.read(&mut head).map_err(|e| e.to_string())?;
+        v.extend_from_slice(&head[..n]);
+        if n > 0 {
+            let _ = self.mem().frame_canonical_payload(other);
+            r.read_to_end(&mut v).map_err(|e| e.to_string())?;
+        }
         Ok(v)
     }
 
